@@ -519,7 +519,8 @@ class StridedInterval:
         if len(ssplit) == 1:
             lower = ssplit[0].lower_bound >> shift_amount
             upper = ssplit[0].upper_bound >> shift_amount
-            stride = max(self.stride >> shift_amount, 1)
+            # the stride survives only if no set bit of it is shifted out
+            stride = max(self.stride >> shift_amount, 1) if self.stride % (1 << shift_amount) == 0 else 1
 
             return StridedInterval(
                 bits=self.bits, lower_bound=lower, upper_bound=upper, stride=stride, uninitialized=self.uninitialized
@@ -553,7 +554,8 @@ class StridedInterval:
 
             lower = nsplit[0].lower_bound >> shift_amount
             upper = nsplit[0].upper_bound >> shift_amount
-            stride = max(self.stride >> shift_amount, 1)
+            # the stride survives only if no set bit of it is shifted out
+            stride = max(self.stride >> shift_amount, 1) if self.stride % (1 << shift_amount) == 0 else 1
             mask = (2**shift_amount - 1) << (self.bits - shift_amount)
 
             if highest_bit_set:
